@@ -1,6 +1,7 @@
 package crl
 
 import (
+	"go.uber.org/zap"
 	"crypto/x509"
 	"math/big"
 
@@ -15,11 +16,42 @@ const (
 	ldap = "ldap://dir/cn=crl"
 )
 
+// newChecker: a validator's CRL checker brought up by the REAL Provision (work_dir registration, repository
+// construction, start-up sweep, ticker) - so whatever provisioning prepares is prepared in every harness.
+// The ticker goroutine it starts is dropped (channels are not encodable); ticks are driven by the harnesses.
 func newChecker(disk bool, fetch config.CRLFetchMode, strict bool, sig config.SignatureValidationMode) *CRLRevocationChecker {
 	crlrepository.VerifInstallWorld()
-	cfg := &config.CRLConfig{WorkDir: "/work", CDPConfig: &config.CDPConfig{CRLFetchModeParsed: fetch, CRLCDPStrict: strict}, SignatureValidationModeParsed: sig, UpdateIntervalParsed: 1800e9}
-	return &CRLRevocationChecker{crlRepository: crlrepository.VerifNewRepo(disk, cfg), crlConfig: cfg}
+	verifrt.InstallDirListing()
+	crlrepository.VerifInstallRepoConstructor()
+	st := config.Memory
+	if disk {
+		st = config.Disk
+	}
+	cfg := &config.CRLConfig{WorkDir: "/work", StorageTypeParsed: st, CDPConfig: &config.CDPConfig{CRLFetchModeParsed: fetch, CRLCDPStrict: strict}, SignatureValidationModeParsed: sig, UpdateIntervalParsed: 1800e9}
+	cfg.TrustedSignatureCerts = trustedForNext
+	trustedForNext = nil
+	c := &CRLRevocationChecker{}
+	err := c.Provision(cfg, zap.NewNop())
+	verifrt.Assume(err == nil)
+	verifrt.DropSpawned()
+	return c
 }
+
+// rebootChecker: the process died and was started again on the same work_dir: every handle, lock, goroutine
+// and every process-global (the work_dir registry) is gone; the validator is provisioned anew by the real Provision.
+func rebootChecker(c *CRLRevocationChecker) *CRLRevocationChecker {
+	verifrt.Reboot()
+	DeregisterCRLWorkDirUsage(c.crlConfig)
+	cfg := c.crlConfig
+	n := &CRLRevocationChecker{}
+	err := n.Provision(cfg, zap.NewNop())
+	verifrt.Assume(err == nil)
+	verifrt.DropSpawned()
+	return n
+}
+
+// trustedForNext: trusted CRL signer certificates of the next validator newChecker provisions
+var trustedForNext []*x509.Certificate
 
 func chainFor(c *x509.Certificate) [][]*x509.Certificate {
 	return [][]*x509.Certificate{{c, {}}}
@@ -117,9 +149,7 @@ func VerifC10_History() {
 				everAcceptable = true
 			}
 		case 3: // restart: handles and pending goroutines are gone, the work_dir stays; Provision's start-up steps run
-			verifrt.Reboot()
-			c.crlRepository = crlrepository.VerifNewRepo(true, c.crlConfig)
-			c.crlRepository.DeleteTempFilesIfExist()
+			c = rebootChecker(c)
 		}
 	}
 	verifrt.DropSpawned()
@@ -154,9 +184,7 @@ func VerifC10_RestartAfterFailedLoad() {
 	if verifrt.Choose(2) == 1 {
 		verifrt.RunSpawned() // the background job runs (and fails) before the restart
 	}
-	verifrt.Reboot()
-	c.crlRepository = crlrepository.VerifNewRepo(true, c.crlConfig)
-	c.crlRepository.DeleteTempFilesIfExist()
+	c = rebootChecker(c)
 	crlrepository.VerifSetServer(urlA, false, nil)
 	st, err = c.IsRevoked(cert, chainFor(cert))
 	verifrt.Reach("after-restart")
